@@ -106,7 +106,7 @@ impl Property for C13Prop {
     }
 
     fn required_probes(&self) -> Vec<&'static str> {
-        vec!["send_while_busy", "senders_interleaved", "internal_event_while_external_queued", "timer_delivery", "sibling_delivery", "session_ended_with_queued"]
+        vec!["send_while_busy", "senders_interleaved", "internal_event_while_external_queued", "timer_delivery", "sibling_delivery", "session_ended_with_queued", "stale_invoke_event_filtered"]
     }
 
     fn assumptions(&self) -> Vec<String> {
@@ -139,6 +139,31 @@ impl Property for C13Prop {
             }
             producers.push(script);
         }
+        // stale events: they carry the invoke id of an invocation the session does not have (what a cancelled
+        // child's leftovers look like); the platform must ignore them - and nothing else
+        if rng.chance(1, 3) {
+            let m = rng.range(1, 6) as usize;
+            let mut script = Vec::new();
+            for k in 0..m {
+                let mut ev = EvSpec::simple(&format!("ghost.{}", k));
+                ev.invokeid = Some("ghost".into());
+                script.push(PStep::Send { sess: 0, ev });
+                if rng.chance(1, 4) {
+                    script.push(PStep::Yield);
+                }
+            }
+            if rng.chance(1, 2) {
+                producers.push(script);
+            } else {
+                // interleaved into an ordinary producer's script: stale and ordinary events alternate in the queue
+                let p = rng.below(producers.len() as u64) as usize;
+                for st in script {
+                    let at = rng.below(producers[p].len() as u64 + 1) as usize;
+                    producers[p].insert(at, st);
+                }
+            }
+        }
+        let np = producers.len();
         // heavy events
         let mut notes = BTreeMap::new();
         let mut heavy: BTreeMap<String, Heavy> = BTreeMap::new();
@@ -343,6 +368,9 @@ impl Property for C13Prop {
         let stop_bracket_seq: Option<u64> = brackets.iter().find(|b| b.name == "stop" || b.name == CANCEL).map(|b| b.start_seq);
         let mut per_sender: BTreeMap<usize, Vec<(u64, String)>> = BTreeMap::new();
         for (_seq, task, ev_id, ev) in &sends {
+            if ev_name(ev).starts_with("ghost.") {
+                continue; // stale events are ignored by the platform, they take no part in the order
+            }
             per_sender.entry(*task).or_default().push((*ev_id, ev_name(ev).to_string()));
         }
         for (_seq, _task, ev_id, ev) in &sends {
@@ -350,6 +378,14 @@ impl Property for C13Prop {
             verdict.evaluations += 1;
             let received = recvs.contains_key(ev_id);
             if name == CANCEL || name == "ping" {
+                continue;
+            }
+            if name.starts_with("ghost.") {
+                // stale event of an invocation the session does not have: must be ignored
+                probes.hit("stale_invoke_event_filtered");
+                if processed.get(&name).copied().unwrap_or(0) > 0 || bracket_of.contains_key(ev_id) {
+                    verdict.other_rules.push("C14.after-cancel:stale-invoke-event-processed".into());
+                }
                 continue;
             }
             let n = processed.get(&name).copied().unwrap_or(0);
